@@ -10,6 +10,7 @@ import (
 	"fmt"
 	"io"
 	"strings"
+	"syscall"
 
 	"github.com/Jigsaw-Code/outline-ss-server/service"
 
@@ -24,10 +25,13 @@ const (
 	addrB = "127.0.0.1:9001"
 )
 
-// op codes: s/p = ListenStream/ListenPacket on a, S/P on b, c = close oldest own handle
+// op codes: s/p = ListenStream/ListenPacket on a, S/P on b, c = close oldest own handle,
+// x/y = ListenStream/ListenPacket on an address that cannot be bound (the call must fail, not hang)
 type program string
 
-var menu = []program{"sc", "pc", "ssc c", "sSc c", "spc c", "scsc", "pcpc"}
+const addrBusy = "127.0.0.1:9002"
+
+var menu = []program{"sc", "pc", "ssc c", "sSc c", "spc c", "scsc", "pcpc", "xsc", "ypc"}
 
 func runProgram(m service.ListenerManager, p program, errs *[]string) {
 	var handles []io.Closer
@@ -55,6 +59,16 @@ func runProgram(m service.ListenerManager, p program, errs *[]string) {
 				continue
 			}
 			handles = append(handles, pc)
+		case 'x':
+			if ln, err := m.ListenStream(addrBusy); err == nil {
+				*errs = append(*errs, "ListenStream on an unbindable address succeeded")
+				ln.Close()
+			}
+		case 'y':
+			if pc, err := m.ListenPacket(addrBusy); err == nil {
+				*errs = append(*errs, "ListenPacket on an unbindable address succeeded")
+				pc.Close()
+			}
 		case 'c':
 			if len(handles) > 0 {
 				handles[0].Close()
@@ -74,7 +88,9 @@ func scenario(progs []program) *engine.Scenario {
 	sc := &engine.Scenario{Name: name}
 	sc.Body = func() {
 		errs, after = nil, nil
-		vnet.Reset()
+		vw := vnet.Reset()
+		vw.BindErr["tcp/"+addrBusy] = syscall.EADDRINUSE
+		vw.BindErr["udp/"+addrBusy] = syscall.EADDRINUSE
 		m := service.NewListenerManager()
 		var ts []*vrt.Thread
 		for i, p := range progs {
@@ -136,12 +152,18 @@ func strs(p []program) []string {
 }
 
 func scenarios(tier string) (two, three []*engine.Scenario) {
-	for i := 0; i < len(menu); i++ {
-		for j := i; j < len(menu); j++ {
-			two = append(two, scenario([]program{menu[i], menu[j]}))
+	mn := menu
+	small := []program{"sc", "pc", "ssc c", "xsc"}
+	if tier != "thorough" {
+		// quick: the repeated open/close programs and the largest three-thread set are thorough-only
+		mn = []program{"sc", "pc", "ssc c", "sSc c", "spc c", "xsc", "ypc"}
+		small = []program{"sc", "pc", "xsc"}
+	}
+	for i := 0; i < len(mn); i++ {
+		for j := i; j < len(mn); j++ {
+			two = append(two, scenario([]program{mn[i], mn[j]}))
 		}
 	}
-	small := []program{"sc", "pc", "ssc c"}
 	for i := 0; i < len(small); i++ {
 		for j := i; j < len(small); j++ {
 			for k := j; k < len(small); k++ {
@@ -167,7 +189,7 @@ func init() {
 		}
 	})
 	hk.Replayers["C13"] = func(ctx *engine.Ctx, rp engine.Replay) []*engine.Finding {
-		two, three := scenarios(ctx.Tier)
+		two, three := scenarios("thorough")
 		return engine.ReplayScenario(append(two, three...), rp)
 	}
 }
